@@ -57,7 +57,7 @@ ToSet(s) == {s[i] : i \in DOMAIN s}
 Ev == Rec[l]
 Is(e) == l <= Len(Rec) /\ Ev.ev = e /\ l' = l + 1
 
-AsyOff == [issued |-> 0, started |-> 0, incall |-> "none", waits |-> 0, poisoned |-> FALSE]
+AsyOff == [issued |-> 0, started |-> 0, incall |-> "none", waits |-> 0, poisoned |-> FALSE, tlbase |-> <<>>]
 OkInit == [c18 |-> TRUE, c20 |-> TRUE, c19 |-> TRUE, built |-> TRUE, c10mt |-> TRUE, c12s |-> TRUE,
            c04 |-> TRUE, c05 |-> TRUE, c07 |-> TRUE, c12 |-> TRUE, c14 |-> TRUE, c13 |-> TRUE, c15 |-> TRUE, c01 |-> TRUE]
 
@@ -408,7 +408,9 @@ TrPanic ==
      ELSE /\ st' = [st EXCEPT ![Ev.s] = "pan"]
           /\ ok' = [ok EXCEPT !.c04 = @ /\ st[Ev.s] = "run"]
           \* a panic inside a background job of the async dispatcher: the job never hands the state back
-          /\ asy' = IF \E b \in DOMAIN dsp : dsp[b].mode = "async" THEN [asy EXCEPT !.poisoned = TRUE] ELSE asy
+          \* (a thread-local system panics on the caller inside wait(): that call fails, nothing is poisoned)
+          /\ asy' = IF (\E b \in DOMAIN dsp : dsp[b].mode = "async") /\ regs[Ev.s].kind \notin {"tl", "nest"}
+                     THEN [asy EXCEPT !.poisoned = TRUE] ELSE asy
           /\ UNCHANGED <<runs, dsp, world, w0, nset, ndis>>
   /\ UNCHANGED pvars
 
@@ -525,7 +527,8 @@ TrACall ==
      ELSE LET e == Ev IN
           IF e.phase = "begin" THEN
              /\ asy' = [asy EXCEPT !.incall = e.op,
-                                   !.issued = IF e.op = "dispatch" THEN @ + 1 ELSE @]
+                                   !.issued = IF e.op = "dispatch" THEN @ + 1 ELSE @,
+                                   !.tlbase = runs]
              \* thread-local systems run once per wait(): ready again
              /\ st' = IF e.op = "wait" THEN [x \in Sys |-> IF x \in ToSet(tls[TopB]) THEN "idle" ELSE st[x]] ELSE st
              /\ UNCHANGED <<ok, runs, dsp, world, w0, nset, ndis>>
@@ -534,12 +537,17 @@ TrACall ==
              /\ UNCHANGED <<st, runs, dsp, world, w0, nset, ndis>>
              /\ ok' = [ok EXCEPT
                   \* C12: wait() runs every thread-local system (exactly once per wait)
-                  !.c12 = @ /\ ((e.op = "wait" /\ ~asy.poisoned) => \A x \in ToSet(tls[TopB]) : st[x] = "done" /\ runs[x] = asy.waits + 1),
+                  !.c12 = @ /\ ((e.op = "wait" /\ ~asy.poisoned /\ e.out = "ok") =>
+                                  \A x \in ToSet(tls[TopB]) : st[x] = "done" /\ runs[x] = asy.tlbase[x] + 1),
                   !.c15 = @ /\
                     IF asy.poisoned THEN
                        \* a system of a background dispatch panicked: that dispatch never completes, so no
                        \* call may report completion - every taking call fails; running() fails or says true
                        (e.out = "panic" \/ (e.op = "running" /\ e.ret))
+                    ELSE IF e.op = "wait" /\ e.out = "panic" THEN
+                       \* wait() may only fail because a thread-local system panicked inside it
+                       /\ \E x \in ToSet(tls[TopB]) : st[x] = "pan"
+                       /\ AllComplete
                     ELSE e.out = "ok" /\
                   CASE e.op = "running" ->
                          \* true while anything runs; false only once everything has finished
@@ -548,7 +556,7 @@ TrACall ==
                     [] e.op \in {"wait", "wait_without_tl", "world", "world_mut", "setup"} ->
                          /\ AllComplete
                          \* wait() ran every thread-local system (once per wait), the others ran none
-                         /\ \A x \in ToSet(tls[TopB]) : runs[x] = asy.waits + (IF e.op = "wait" THEN 1 ELSE 0)
+                         /\ \A x \in ToSet(tls[TopB]) : runs[x] = asy.tlbase[x] + (IF e.op = "wait" THEN 1 ELSE 0)
                          /\ (e.op = "wait" => \A x \in ToSet(tls[TopB]) : st[x] = "done")
                     [] OTHER -> TRUE]
   /\ UNCHANGED pvars
